@@ -2,7 +2,7 @@
 "is this a non-negative combination of what we assumed" test.  No search beyond pairs of assumptions,
 no solver.  Quantities are treated as mathematical integers (sizes, counts and addresses of the library
 do not wrap; stated in DESIGN §8)."""
-from .terms import (Lin, ZERO, const, atom, TRUE, FALSE, c_not, c_and, c_or, c_cmp, mk_gamma, mk_mul, mk_alignup, mk_and, subst,
+from .terms import (rebuild_purecall, rebuild_generic, Lin, ZERO, const, atom, TRUE, FALSE, c_not, c_and, c_or, c_cmp, mk_gamma, mk_mul, mk_alignup, mk_and, subst,
                     cond_atoms, show, show_cond)
 
 
@@ -102,6 +102,22 @@ def _fm_infeasible(ges, max_rows=400):
     for L in rows:
         if L.is_const() and L.c < 0:
             return True
+    return False
+
+
+def _signed_atom(a, depth=0):
+    """atoms that may denote a negative number: memcmp results, and γ-joins with a branch that may be negative"""
+    if a[0] == "purecall":
+        return a[1] == "memcmp"
+    if a[0] == "gamma":
+        if depth > 4:
+            return True
+        for br in (a[2], a[3]):
+            if br.c < 0:
+                return True
+            for x, k in br.t:
+                if k < 0 or x[0] == "unk" or _signed_atom(x, depth + 1):
+                    return True
     return False
 
 
@@ -291,7 +307,8 @@ class Facts:
         for L in rows:
             walk_all(L, allat)
         for a in list(allat):
-            if a[0] == "lshr" and isinstance(a[2], Lin) and a[2].is_const() and 0 < a[2].c < 32:
+            # (ashr of a byte count / pointer difference: non-negative by premise, hence the same as lshr)
+            if a[0] in ("lshr", "ashr") and isinstance(a[2], Lin) and a[2].is_const() and 0 < a[2].c < 32:
                 k = a[2].c
                 msk = (1 << k) - 1
                 x = a[1]
@@ -324,8 +341,28 @@ class Facts:
                             for w in (sa[1], sa[2]):
                                 if isinstance(w, Lin) and w.is_const() and w.c > 0:
                                     rows.append(atom(a).scale(w.c) - L)
+        # products: a constant lower bound c > 0 on one factor gives  x*y >= c*x
+        lbs = {}
+        for g in rows:
+            if len(g.t) == 1 and g.c < 0:
+                (ga, gk), = tuple(g.t)
+                if gk == 1:
+                    lbs[ga] = max(lbs.get(ga, 0), -g.c)
+        if lbs:
+            for a in list(atoms):
+                if a[0] != "prod":
+                    continue
+                for i, fac in enumerate(a[1:]):
+                    if fac in lbs:
+                        rest = const(1)
+                        for j, o in enumerate(a[1:]):
+                            if j != i:
+                                rest = mk_mul(rest, atom(o))
+                        rows.append(atom(a) - rest.scale(lbs[fac]))
+                        for b in rest.atoms():
+                            atoms.add(b)
         for a in list(atoms):
-            if a[0] == "unk" or (a[0] == "purecall" and a[1] == "memcmp"):
+            if a[0] == "unk" or _signed_atom(a):
                 continue  # memcmp's result is a signed quantity
             rows.append(atom(a))  # unsigned quantity
             if a[0] == "alignup":
@@ -405,6 +442,14 @@ class Facts:
         return False
 
     def nonneg(self, L):
+        memo = self._cache("nonneg")
+        if L in memo:
+            return memo[L]
+        r = self._nonneg_top(L)
+        memo[L] = r
+        return r
+
+    def _nonneg_top(self, L):
         L = self.apply_sub(L)
         if self._nonneg(L, [self.apply_sub(g) for g in self.ge]):
             return True
@@ -415,7 +460,7 @@ class Facts:
     def _all_nonneg(t, depth=0):
         """c + Σ k·atom with c, k >= 0 (every atom denotes an unsigned quantity) is non-negative.
         z <= AlignUp(z, A) <= z + A - 1 is used, one atom at a time, to cancel mixed signs."""
-        if t.c >= 0 and all(k >= 0 and a[0] != "unk" and not (a[0] == "purecall" and a[1] == "memcmp") for a, k in t.t):
+        if t.c >= 0 and all(k >= 0 and a[0] != "unk" and not _signed_atom(a) for a, k in t.t):
             return True
         if depth > 4:
             return False
@@ -479,6 +524,13 @@ class Facts:
                 if k:
                     e2 = e2 - atom(a).scale(k) + r.scale(k)
             unit = [(a, k) for a, k in e2.t if k in (1, -1)]
+            # an atom that also occurs nested inside another atom of the equality cannot be eliminated by it
+            # (its replacement would mention it again)
+            if len(e2.t) > 1 and unit:
+                def nested(a):
+                    ra = repr(atom(a))
+                    return any(b != a and len(b) > 1 and ra in repr(atom(b)) for b, _ in e2.t)
+                unit = [(a, k) for a, k in unit if not nested(a)]
             if not unit:
                 continue
             a, k = max(unit, key=lambda ak: repr(ak[0]))
@@ -494,11 +546,28 @@ class Facts:
         self._submap_n = len(self.eq)
         return sub
 
+    def _cache(self, name):
+        """per-Facts memo table, dropped whenever a fact is added"""
+        ver = (len(self.ge), len(self.eq), len(self.ne), len(self.raw))
+        c = self.__dict__.get("_memo")
+        if c is None or c[0] != ver:
+            c = (ver, {})
+            self.__dict__["_memo"] = c
+        return c[1].setdefault(name, {})
+
     def apply_sub(self, L, depth=0):
         """substitute the equality map into L (recursively inside atoms); no deciding involved"""
         sub = self.submap()
         if not sub or not isinstance(L, Lin) or depth > 8:
             return L
+        memo = self._cache("apply_sub")
+        if L in memo:
+            return memo[L]
+        r = self._apply_sub(L, depth, sub)
+        memo[L] = r
+        return r
+
+    def _apply_sub(self, L, depth, sub):
 
         def f(a):
             if a in sub:
@@ -518,10 +587,9 @@ class Facts:
                 return const(1) if c == TRUE else (ZERO if c == FALSE else atom(("b2i", c)))
             if k == "alignup":
                 return mk_alignup(self.apply_sub(a[1], depth + 1), a[2])
-            out = [k]
-            for x in a[1:]:
-                out.append(self.apply_sub(x, depth + 1) if isinstance(x, Lin) else x)
-            return atom(tuple(out))
+            if k == "purecall":
+                return rebuild_purecall(a, lambda x: self.apply_sub(x, depth + 1))
+            return rebuild_generic(a, lambda x: self.apply_sub(x, depth + 1))
 
         return subst(L, f)
 
@@ -568,8 +636,16 @@ class Facts:
             return r.c != 0
         return False
 
-    def decide(self, c):
+    def decide(self, c, _depth=0):
         """True / False / None"""
+        memo = self._cache("decide")
+        if c in memo:
+            return memo[c]
+        r = self._decide(c, _depth)
+        memo[c] = r
+        return r
+
+    def _decide(self, c, _depth=0):
         k = c[0]
         if k == "true":
             return True
@@ -582,7 +658,12 @@ class Facts:
         if self.eq and k in ("cmp", "not"):
             c2 = self.apply_sub_cond(c)
             if c2 != c:
-                return self.decide(c2)
+                if _depth > 6:
+                    import os
+                    if os.environ.get("CV_DEBUG"):
+                        print("DECIDE-CYCLE", show_cond(c)[:600], "=>", show_cond(c2)[:600])
+                    return None
+                return self.decide(c2, _depth + 1)
             for r in self.raw:
                 r2 = self.apply_sub_cond(r)
                 if r2 == c:
@@ -633,6 +714,17 @@ def simplify(t, facts, depth=0):
     domain proves redundant"""
     if not isinstance(t, Lin) or depth > 12:
         return t
+    if not t.t:
+        return t
+    memo = facts._cache("simplify")
+    if t in memo:
+        return memo[t]
+    r = _simplify(t, facts, depth)
+    memo[t] = r
+    return r
+
+
+def _simplify(t, facts, depth):
     sub = facts.submap()
 
     def f(a):
@@ -711,10 +803,9 @@ def simplify(t, facts, depth=0):
                     from .terms import mk_bin
                     return x - mk_bin("lshr", x, const(kbits)).scale(1 << kbits)
             return mk_and(x, const(mk))
-        out = [k]
-        for x in a[1:]:
-            out.append(simplify(x, facts, depth + 1) if isinstance(x, Lin) else x)
-        return atom(tuple(out))
+        if k == "purecall":
+            return rebuild_purecall(a, lambda x: simplify(x, facts, depth + 1))
+        return rebuild_generic(a, lambda x: simplify(x, facts, depth + 1))
 
     return subst(t, f)
 
